@@ -17,8 +17,13 @@ Text is `List Char` throughout (`Str`).  The model follows `LogFormatter` functi
 
 Parameters (outside the model, supplied by the harness from the running code): the digest
 `h : Json → Str` (`hash_it(str(value))`), the JSON parser `parse : Str → Option obj`
-(`json.loads(...)` succeeded *and* gave a dict), Python's `str()` of numbers and lists (carried
-inside `Json.num` / `Json.arr`).
+(`json.loads(...)` succeeded *and* gave a dict), Python's `str()` of numbers (carried inside
+`Json.num`).  Arrays are structured and rendered by the model (`pyRepr`, Python's `str(list)`).
+
+Two readings of "nested objects" are defined side by side: `eraseObj` / `cleanObj` — what orso
+implements and what the check enforces: arrays are values, not looked into — and `eraseDeepObj` /
+`cleanDeepObj`, in which objects inside arrays count as nested objects (not implemented by orso).
+`Model/SanitiseEvent.lean` adds the structured logger (`GoogleLogger.write_event`).
 -/
 namespace Sanitise
 
@@ -117,27 +122,18 @@ def sensitive (k : Str) : Bool := patterns.any fun p => patMatches Gen.Sanitise.
 
 /-! ## JSON values -/
 
-/-- What `json.loads` returns.  Numbers and arrays carry Python's `str()` of the value (a
-parameter: float `repr`, list `repr`); arrays are opaque because `clean_record` does not look
-inside them (l.131-132: `str(value)`). -/
+/-- What `json.loads` returns.  Numbers carry Python's `str()` of the value (a parameter: float
+`repr`).  Arrays are structured, so that both readings of "nested objects" can be stated: the
+implementation renders an array with `str(value)` and never looks inside it (`cleanObj`), the
+deep reading also descends into arrays (`cleanDeepObj`). -/
 inductive Json where
   | null
   | bool (b : Bool)
   | num (text : Str)
   | str (s : Str)
-  | arr (text : Str)
+  | arr (xs : List Json)
   | obj (kvs : List (Str × Json))
   deriving BEq, Repr, Inhabited
-
-/-- Python `str(value)` of a value that is not an object. -/
-def pyStr : Json → Str
-  | .null => ['N', 'o', 'n', 'e']
-  | .bool true => ['T', 'r', 'u', 'e']
-  | .bool false => ['F', 'a', 'l', 's', 'e']
-  | .num t => t
-  | .str s => s
-  | .arr t => t
-  | .obj _ => []
 
 structure Colors where
   key : Str
@@ -209,6 +205,35 @@ def commaSep : List Str → Str
 def pyReprDict (kvs : List (Str × Str)) : Str :=
   '{' :: (commaSep (kvs.map fun (k, v) => pyReprStr k ++ ':' :: ' ' :: pyReprStr v) ++ ['}'])
 
+mutual
+/-- Python `repr(value)` of what `json.loads` returned (what `str(list)` shows of its elements). -/
+def pyRepr : Json → Str
+  | .null => ['N', 'o', 'n', 'e']
+  | .bool true => ['T', 'r', 'u', 'e']
+  | .bool false => ['F', 'a', 'l', 's', 'e']
+  | .num t => t
+  | .str s => pyReprStr s
+  | .arr xs => '[' :: (pyReprItems xs ++ [']'])
+  | .obj kvs => '{' :: (pyReprMembers kvs ++ ['}'])
+def pyReprItems : List Json → Str
+  | [] => []
+  | x :: rest =>
+    match rest with
+    | [] => pyRepr x
+    | _ :: _ => pyRepr x ++ ',' :: ' ' :: pyReprItems rest
+def pyReprMembers : List (Str × Json) → Str
+  | [] => []
+  | (k, v) :: rest =>
+    match rest with
+    | [] => pyReprStr k ++ ':' :: ' ' :: pyRepr v
+    | _ :: _ => pyReprStr k ++ ':' :: ' ' :: pyRepr v ++ ',' :: ' ' :: pyReprMembers rest
+end
+
+/-- Python `str(value)`: a text is itself, everything else is its `repr`. -/
+def pyStr : Json → Str
+  | .str s => s
+  | v => pyRepr v
+
 /-- l.130: the placeholder. -/
 def placeholder (c : Colors) (digest : Str) : Str :=
   c.purple ++ ['<', 'r', 'e', 'd', 'a', 'c', 't', 'e', 'd', ':'] ++ digest ++ '>' :: c.off
@@ -219,9 +244,9 @@ def cleanVal (h : Json → Str) (c : Colors) : Json → Str
   | .obj kvs => pyReprDict (cleanObj h c kvs)
   | .null => quoteColour c (pyStr .null)
   | .bool b => quoteColour c (pyStr (.bool b))
-  | .num t => quoteColour c t
-  | .str s => quoteColour c s
-  | .arr t => quoteColour c t
+  | .num t => quoteColour c (pyStr (.num t))
+  | .str s => quoteColour c (pyStr (.str s))
+  | .arr xs => quoteColour c (pyStr (.arr xs))
 /-- `clean_record` (l.125-137): one cleaned (key, value) pair of texts per member. -/
 def cleanObj (h : Json → Str) (c : Colors) : List (Str × Json) → List (Str × Str)
   | [] => []
@@ -363,10 +388,102 @@ def erase (h : Json → Str) : Json → Json
   | .bool b => .bool b
   | .num t => .num t
   | .str s => .str s
-  | .arr t => .arr t
+  | .arr xs => .arr xs
 def eraseObj (h : Json → Str) : List (Str × Json) → List (Str × Json)
   | [] => []
   | (k, v) :: rest => (k, if sensitive k then .str (h v) else erase h v) :: eraseObj h rest
+end
+
+/-! ## the other reading: objects inside arrays count as nested objects
+
+Nothing in this section is implemented by orso; it states what a sanitiser that also descends
+into arrays would compute, so that the two readings can be compared (`Props/C20.lean`). -/
+
+mutual
+/-- A value inside an array, or an object / array value, under the deep reading: objects are
+cleaned, arrays are descended into, everything else is shown as Python shows it inside a list. -/
+def deepItem (h : Json → Str) (c : Colors) : Json → Str
+  | .obj kvs => pyReprDict (cleanDeepObj h c kvs)
+  | .arr xs => '[' :: (deepItems h c xs ++ [']'])
+  | .null => pyRepr .null
+  | .bool b => pyRepr (.bool b)
+  | .num t => pyRepr (.num t)
+  | .str s => pyRepr (.str s)
+def deepItems (h : Json → Str) (c : Colors) : List Json → Str
+  | [] => []
+  | x :: rest =>
+    match rest with
+    | [] => deepItem h c x
+    | _ :: _ => deepItem h c x ++ ',' :: ' ' :: deepItems h c rest
+/-- A value stored under a non-sensitive key, under the deep reading. -/
+def deepValue (h : Json → Str) (c : Colors) : Json → Str
+  | .obj kvs => pyReprDict (cleanDeepObj h c kvs)
+  | .arr xs => '[' :: (deepItems h c xs ++ [']'])
+  | .null => quoteColour c (pyStr .null)
+  | .bool b => quoteColour c (pyStr (.bool b))
+  | .num t => quoteColour c (pyStr (.num t))
+  | .str s => quoteColour c (pyStr (.str s))
+/-- `clean_record` under the deep reading. -/
+def cleanDeepObj (h : Json → Str) (c : Colors) : List (Str × Json) → List (Str × Str)
+  | [] => []
+  | (k, v) :: rest =>
+    (c.key ++ k ++ c.off,
+      c.value ++ (if sensitive k then placeholder c (h v) else deepValue h c v) ++ c.off)
+      :: cleanDeepObj h c rest
+end
+
+mutual
+/-- Erasure under the deep reading: also inside arrays. -/
+def eraseDeep (h : Json → Str) : Json → Json
+  | .obj kvs => .obj (eraseDeepObj h kvs)
+  | .arr xs => .arr (eraseDeepItems h xs)
+  | .null => .null
+  | .bool b => .bool b
+  | .num t => .num t
+  | .str s => .str s
+def eraseDeepItems (h : Json → Str) : List Json → List Json
+  | [] => []
+  | x :: rest => eraseDeep h x :: eraseDeepItems h rest
+def eraseDeepObj (h : Json → Str) : List (Str × Json) → List (Str × Json)
+  | [] => []
+  | (k, v) :: rest => (k, if sensitive k then .str (h v) else eraseDeep h v) :: eraseDeepObj h rest
+end
+
+mutual
+/-- No array anywhere (reachable through non-sensitive keys or not). -/
+def arrayFree : Json → Bool
+  | .obj kvs => arrayFreeObj kvs
+  | .arr _ => false
+  | _ => true
+def arrayFreeObj : List (Str × Json) → Bool
+  | [] => true
+  | (_, v) :: rest => arrayFree v && arrayFreeObj rest
+end
+
+mutual
+/-- No sensitive key anywhere inside the value. -/
+def keyFree : Json → Bool
+  | .obj kvs => keyFreeObj kvs
+  | .arr xs => keyFreeItems xs
+  | _ => true
+def keyFreeItems : List Json → Bool
+  | [] => true
+  | x :: rest => keyFree x && keyFreeItems rest
+def keyFreeObj : List (Str × Json) → Bool
+  | [] => true
+  | (k, v) :: rest => !sensitive k && keyFree v && keyFreeObj rest
+end
+
+mutual
+/-- The two readings agree on this value: wherever an array is reachable through non-sensitive
+keys, nothing inside it is stored under a sensitive key. -/
+def readingsAgree : Json → Bool
+  | .obj kvs => readingsAgreeObj kvs
+  | .arr xs => keyFreeItems xs
+  | _ => true
+def readingsAgreeObj : List (Str × Json) → Bool
+  | [] => true
+  | (k, v) :: rest => (sensitive k || readingsAgree v) && readingsAgreeObj rest
 end
 
 /-- `k` ends in the word `w`, letter case ignored (`w` is given folded, i.e. in lower case). -/
@@ -397,6 +514,21 @@ def cleanRun (close : Char) (a : Str) : Bool := a.all fun x => x != close && x !
 
 /-- The text from the `://` of a URL with user-info `u` onwards: `://u@post`. -/
 def urlTail (u post : Str) : Str := Gen.Sanitise.urlOpen ++ u ++ Gen.Sanitise.urlClose :: post
+
+/-- The `://user-info@` of a URL. -/
+def urlCore (u : Str) : Str := Gen.Sanitise.urlOpen ++ u ++ [Gen.Sanitise.urlClose]
+
+/-- The characters RFC 3986 allows in user-info (unreserved, `%` of pct-encoded, sub-delims, `:`)
+except the apostrophe: no quote, backtick, white space, `|`, `\`, `/`, `@`, control character. -/
+def urlSafeChar (c : Char) : Bool :=
+  plainChar c || ['-', '.', '_', '~', '%', '!', '$', '&', '(', ')', '*', '+', ',', ';', '=', ':'].contains c
+
+def UrlSafe (u : Str) : Prop := ∀ c ∈ u, urlSafeChar c = true
+
+/-- The first character of a token may not occur in any pattern `colorizer` replaces (the literal
+`\u0001` and the keys of `orso.display.COLORS`): digits 2..9 and most lower-case letters qualify. -/
+def tokenHeadOK (c : Char) : Bool :=
+  !(['\\', 'u', '0', '0', '0', '1'].contains c) && Gen.Sanitise.displayColors.all fun kv => !(kv.1.contains c)
 
 /-- One attempt of the URL regular expression at the front of `s`: the text after the `@`. -/
 def urlStep (s : Str) : Option Str :=
